@@ -116,6 +116,10 @@ def step (a : Acc) (toks : List String) : Acc :=
       match str? du with
       | some du => { finishCall a with deviceUrl := du }
       | none => a.fail "bad reinit"
+  | ["mutate", _kind] =>
+      -- the caller mutated a list / dict the public accessors RETURNED: the accessors hand out fresh
+      -- copies, so the model's state (the action as declared) does not change
+      finishCall a
   | ["kw", n, v] =>
       match str? n, val? v with
       | some n, some v' => updCur a fun c => { c with kw := c.kw ++ [(n, v')], otab := c.otab.addRepr v }
@@ -150,7 +154,7 @@ def step (a : Acc) (toks : List String) : Acc :=
 def finish (a0 : Acc) : Bool × Bool × List String :=
   let a := finishCall a0
   if !a.bad.isEmpty then (false, false, a.bad)
-  else if a.ncalls == 0 then (false, false, ["no call"])
+  else if a.ncalls == 0 then (true, true, [])      -- a history without calls (only produced by shrinking) shows nothing
   else (a.notes.isEmpty, a.jnotes.isEmpty, a.notes ++ a.jnotes)
 
 def main : IO UInt32 := do
